@@ -212,11 +212,10 @@ func (lex *Lexer) call(state int, fnext int) {
 
 func (lex *Lexer) ret(n int) {
 	lex.verifStep(verifStepRet)
-	lex.top = lex.top - n
-	if lex.top < 0 {
-		lex.top = 0
+	if lex.top >= n {
+		lex.top = lex.top - n
+		lex.cs = lex.stack[lex.top]
 	}
-	lex.cs = lex.stack[lex.top]
 	lex.p++
 }
 
